@@ -15,6 +15,83 @@
 // $Name is replaced by the shape's attribute of that name (GoType, CastTo, CastFrom, ...).
 package main
 
+// ===================================================================== config.go (C16, C14)
+
+//@ func flagMapFromArray
+//@ ghost k0 string
+//@ invariant[0] r != nil && fresh(r)
+//@ invariant[0] has(r, k0) == memberN(v, idx, k0)
+//@ ensures [C16,C14] result != nil && fresh(result)
+//@ ensures [C16,C14] has(result, k0) == member(v, k0)
+
+//@ func Config.getStringParam
+//@ pure
+//@ requires c != nil
+//@ define raw = strings.TrimSpace(c.params[name])
+//@ ensures [C16] result == ite(raw == "", d, raw)
+
+//@ func Config.getSliceParam
+//@ requires c != nil
+//@ ghost k0 string
+//@ define raw = strings.TrimSpace(c.params[name])
+//@ ensures [C16] imp(raw == "", result == d)
+//@ ensures [C16,C14] imp(raw != "", result != nil && fresh(result) && has(result, k0) == member(strings.Split(raw, "+"), k0))
+
+//@ func Config.getBoolParam
+//@ requires c != nil
+//@ define low = strings.ToLower(strings.TrimSpace(c.params[name]))
+//@ ensures [C16] imp(low == "", result == d)
+//@ ensures [C16] imp(low != "" && second(strconv.ParseBool(low)) != nil, result == d)
+//@ ensures [C16] imp(low != "" && second(strconv.ParseBool(low)) == nil, result == first(strconv.ParseBool(low)))
+
+// Every option that exists on both channels: a non-blank parameter wins, otherwise the value read
+// from YAML (the prior field value) is kept; lists are split at "+" and are sets.
+//@ func Config.readFromCLI
+//@ requires c != nil
+//@ ghost k0 string
+//@ define p(n) = strings.TrimSpace(c.params[n])
+//@ define listOpt(n, cur, prior) = imp(p(n) == "", cur == prior) && imp(p(n) != "", cur != nil && has(cur, k0) == member(strings.Split(p(n), "+"), k0))
+//@ define strOpt(n, cur, prior) = cur == ite(p(n) == "", prior, p(n))
+//@ define lowSort = strings.ToLower(p("sort"))
+//@ modifies c.Types, c.ExcludeFields, c.ComputedFields, c.RequiredFields, c.SensitiveFields, c.DefaultPackageName, c.TargetPackageName, c.DurationCustomType, c.Sort
+//@ ensures [C16] result == nil
+//@ ensures [C16,C14] listOpt("types", c.Types, old(c.Types))
+//@ ensures [C16,C14] listOpt("exclude_fields", c.ExcludeFields, old(c.ExcludeFields))
+//@ ensures [C16,C14] listOpt("computed_fields", c.ComputedFields, old(c.ComputedFields))
+//@ ensures [C16,C14] listOpt("required_fields", c.RequiredFields, old(c.RequiredFields))
+//@ ensures [C16,C14] listOpt("sensitive", c.SensitiveFields, old(c.SensitiveFields))
+//@ ensures [C16] strOpt("default_package_name", c.DefaultPackageName, old(c.DefaultPackageName))
+//@ ensures [C16] strOpt("target_package_name", c.TargetPackageName, old(c.TargetPackageName))
+//@ ensures [C16] strOpt("custom_duration", c.DurationCustomType, old(c.DurationCustomType))
+//@ ensures [C16] imp(lowSort == "" || second(strconv.ParseBool(lowSort)) != nil, c.Sort == old(c.Sort))
+//@ ensures [C16] imp(lowSort != "" && second(strconv.ParseBool(lowSort)) == nil, c.Sort == first(strconv.ParseBool(lowSort)))
+
+// no `config` parameter: nothing is read; a file that cannot be read or parsed is an error
+//@ func Config.readFromYaml
+//@ requires c != nil
+//@ define path = old(strings.TrimSpace(c.params["config"]))
+//@ modifies *c
+//@ ensures c.params == old(c.params)
+//@ ensures [C16] imp(path == "", result == nil)
+//@ ensures [C16] imp(path != "" && second(ioutil.ReadFile(path)) != nil, result != nil)
+//@ ensures [C16] imp(path != "" && second(ioutil.ReadFile(path)) == nil && yamlErr(first(ioutil.ReadFile(path))) != nil, result != nil)
+
+// errors of either step fail the whole configuration; no types => error; a parameter given on the
+// command line determines the field whatever the YAML file said
+//@ func ReadConfig
+//@ ghost k0 string
+//@ define p(n) = strings.TrimSpace(params[n])
+//@ define path = p("config")
+//@ define yamlFails = path != "" && (second(ioutil.ReadFile(path)) != nil || yamlErr(first(ioutil.ReadFile(path))) != nil)
+//@ define cliList(n, cur) = imp(p(n) != "", cur != nil && has(cur, k0) == member(strings.Split(p(n), "+"), k0))
+//@ define cliStr(n, cur) = imp(p(n) != "", cur == p(n))
+//@ modifies *
+//@ ensures [C16] imp(yamlFails, result1 != nil)
+//@ ensures [C16] imp(result1 == nil, result0 != nil && len(result0.Types) > 0)
+//@ ensures [C16] imp(result1 != nil, result0 == nil)
+//@ ensures [C16,C14] imp(result1 == nil, cliList("types", result0.Types) && cliList("exclude_fields", result0.ExcludeFields) && cliList("computed_fields", result0.ComputedFields) && cliList("required_fields", result0.RequiredFields) && cliList("sensitive", result0.SensitiveFields))
+//@ ensures [C16] imp(result1 == nil, cliStr("default_package_name", result0.DefaultPackageName) && cliStr("target_package_name", result0.TargetPackageName) && cliStr("custom_duration", result0.DurationCustomType))
+
 // ===================================================================== CopyFrom, emitted code
 
 //@ emits CopyFrom when true
